@@ -46,7 +46,7 @@ TIERS = {
         "thorough": {"runs": 20000, "budget_s": 540, "min_budget": 300},
     },
     "crash": {
-        "quick": {"runs": 160, "budget_s": 80, "min_budget": 120},
+        "quick": {"runs": 128, "budget_s": 70, "min_budget": 120},
         "thorough": {"runs": 4000, "budget_s": 540, "min_budget": 300},
     },
 }
